@@ -48,10 +48,14 @@ const (
 	KeyUint64
 	KeyString
 	KeyBytes
+	KeyInt64
+	KeyInt32
+	KeyUint32
+	KeyByte
 	NumKeyKinds
 )
 
-var KeyKindNames = []string{"int", "uint64", "string", "[]byte"}
+var KeyKindNames = []string{"int", "uint64", "string", "[]byte", "int64", "int32", "uint32", "byte"}
 
 // Hasher kinds.
 const (
@@ -272,8 +276,8 @@ func GenPlan(profName string, seed uint64) *Plan {
 	c.KeyKind = KeyInt
 	if g.p(pr.strKeys) {
 		c.KeyKind = g.pick([]int{KeyString, KeyBytes})
-	} else if g.p(300) {
-		c.KeyKind = KeyUint64
+	} else if g.p(400) {
+		c.KeyKind = g.pick([]int{KeyUint64, KeyUint64, KeyInt64, KeyInt32, KeyUint32, KeyByte})
 	}
 	p.Flags.Injective = true
 	if g.p(pr.collide) && nkeys >= 2 {
@@ -319,6 +323,12 @@ func GenPlan(profName string, seed uint64) *Plan {
 		}
 	}
 
+	if c.KeyKind == KeyByte {
+		// byte keys: 256 values, one shard each
+		for i := range c.Keys {
+			c.Keys[i].Int = uint64(i*13+1) % 251
+		}
+	}
 	c.NumCounters = int64(g.pick([]int{2, 4, 16, 64, 256, 1024}))
 	c.BufferItems = int64(g.pick([]int{1, 1, 2, 3, 4, 8, 64}))
 	if g.p(pr.bufSmall) {
@@ -635,6 +645,10 @@ func GenPlan(profName string, seed uint64) *Plan {
 		p.Epilogue = []Op{{K: OpWait}, {K: OpQuiesce}, {K: OpClose}, {K: OpProbeClosed}}
 	}
 	// the epilogue-only key
-	c.Keys = append(c.Keys, KeySpec{Int: uint64(5000 + nkeys), Hash: 0xfeed0000 + uint64(nkeys), Conflict: 77})
+	epiKey := uint64(5000 + nkeys)
+	if c.KeyKind == KeyByte {
+		epiKey = 253
+	}
+	c.Keys = append(c.Keys, KeySpec{Int: epiKey, Hash: 0xfeed0000 + uint64(nkeys), Conflict: 77})
 	return p
 }
